@@ -1,11 +1,172 @@
 import SigModel.Driver.Loop
+import SigModel.Spec.RealIP
 
-/-! Driver for C16 — stub (no model yet). -/
+/-!
+Driver for C16.  Op lines (tokens percent-encoded as in `Basic/Proto.lean`):
+
+* `new <main|proxy> T <n> <entry>*n A <m> <entry>*m S …`     construct a server with these two configured lists
+* `reload <main|proxy> T <n> <entry>*n A <m> <entry>*m S …`  `Reload` of the running server
+    entry = `_` (empty after trimming) | `!` (not an address / CIDR) | `<hex ip>/<hex mask>`
+    output: `cfg <trusted> <allow>` (effective lists, `hexip/hexmask` joined by `,`, `-` if empty) or `err`;
+    main: the raw `IP` / `Mask` bytes of every `net.IPNet`; proxy (which cannot see the fields): the
+    networks as `IPNet.String` prints them, re-read with `net.ParseCIDR`
+* `ip <srv|nil> <tok> X <n> <tok>*n F <m> <tok>*m R …`          `GetRealUserIP`; output = encoded address text
+* `get <main|proxy> <route> <tok> X <n> <tok>*n F <m> <tok>*m R …`  HTTP status of `GET route`
+    tok = `<encoded text>;<hex of net.ParseIP(text) | ->`
+* `mem <n> <hexip/hexmask>*n <hex ip>`                         `AllowedIps.Allowed`; output `1`/`0`
+
+Everything after `S` / `R` is the raw material for the implementation side only.
+-/
 namespace SigModel.Driver.C16
+open SigModel.Proto SigModel.RealIP
+
+def parseHex (s : String) : Option (List Nat) :=
+  if s = "" then some [] else hexToNats s.toList
+
+def splitAtChar (c : Char) (s : String) : Option (String × String) :=
+  let cs := s.toList
+  let a := cs.takeWhile (· ≠ c)
+  if a.length < cs.length then some (String.ofList a, String.ofList (cs.drop (a.length + 1))) else none
+
+def parseCidr (s : String) : Option Cidr := do
+  let (a, b) ← splitAtChar '/' s
+  some { ip := ← parseHex a, mask := ← parseHex b }
+
+def parseEntry (s : String) : Option Entry :=
+  if s = "_" then some .skip else if s = "!" then some .bad else (parseCidr s).map .net
+
+def parseTok (s : String) : Option Tok := do
+  let (a, b) ← splitAtChar ';' s
+  let text ← dec a
+  if b = "-" then some { text := text, ip := none }
+  else some { text := text, ip := some (← parseHex b) }
+
+/-- `<n> x*n rest` -/
+def takeCounted {α : Type} (f : String → Option α) : List String → Option (List α × List String)
+  | [] => none
+  | n :: rest => do
+    let k ← toNat? n
+    if rest.length < k then none
+    let xs ← (rest.take k).mapM f
+    some (xs, rest.drop k)
+
+def parseCfg : List String → Option (List Entry × List Entry)
+  | "T" :: rest => do
+    let (t, rest) ← takeCounted parseEntry rest
+    match rest with
+    | "A" :: rest =>
+      let (a, rest) ← takeCounted parseEntry rest
+      match rest with
+      | "S" :: _ => some (t, a)
+      | [] => some (t, a)
+      | _ => none
+    | _ => none
+  | _ => none
+
+def parseReq : List String → Option Req
+  | p :: "X" :: rest => do
+    let peer ← parseTok p
+    let (x, rest) ← takeCounted parseTok rest
+    match rest with
+    | "F" :: rest =>
+      let (f, rest) ← takeCounted parseTok rest
+      match rest with
+      | "R" :: _ => some { peer := peer, xreal := x, hops := f }
+      | [] => some { peer := peer, xreal := x, hops := f }
+      | _ => none
+    | _ => none
+  | _ => none
+
+def showCidr (c : Cidr) : String := natsToHex c.ip ++ "/" ++ natsToHex c.mask
+
+/-- What survives `IPNet.String` + `net.ParseCIDR`: network number and mask of the address family. -/
+def normCidr (c : Cidr) : Cidr :=
+  let (nn, m) := networkNumberAndMask c
+  { ip := nn, mask := m }
+
+def showList (s : Server) (l : List Cidr) : String :=
+  if l.isEmpty then "-" else
+  ",".intercalate (l.map fun c => showCidr (match s with | .main => c | .proxy => normCidr c))
+
+def showCfg (s : Server) (c : Config) : String := s!"cfg {showList s c.trusted} {showList s c.allow}"
+
+def parseList (s : String) : Option (List Cidr) :=
+  if s = "-" then some [] else (s.splitOn ",").mapM parseCidr
+
+def parseServer (s : String) : Option Server :=
+  if s = "main" then some .main else if s = "proxy" then some .proxy else none
 
 structure St where
-  dummy : Unit := ()
+  cfg : Config := Config.default
+  judge : Judge := {}
 
-def step (st : St) (_op _impl : List String) : St × String × String := (st, "bad-op", "na")
+/-- The judge learns the configuration from the implementation's own report. -/
+def learn (j : Judge) : List String → Judge
+  | ["cfg", t, a] =>
+    match parseList t, parseList a with
+    | some tl, some al => { trusted := tl, allow := al, known := true }
+    | _, _ => j
+  | _ => j
+
+
+def step (st : St) (op impl : List String) : St × String × String :=
+  match op with
+  | "new" :: srv :: rest =>
+    match parseServer srv, parseCfg rest with
+    | some s, some (t, a) =>
+      match Config.fresh t a with
+      | some c => ({ cfg := c, judge := learn st.judge impl }, showCfg s c, "na")
+      -- the harness falls back to a server with an empty configuration
+      | none => ({ cfg := Config.default, judge := {} }, "err", "na")
+    | _, _ => (st, "bad-op", "na")
+  | "reload" :: srv :: rest =>
+    match parseServer srv, parseCfg rest with
+    | some s, some (t, a) =>
+      let c := st.cfg.reload t a
+      ({ cfg := c, judge := learn st.judge impl }, showCfg s c, "na")
+    | _, _ => (st, "bad-op", "na")
+  | "ip" :: mode :: rest =>
+    match parseReq rest with
+    | none => (st, "bad-op", "na")
+    | some r =>
+      if !r.wf then (st, "bad-op", "na") else
+      let nilT := mode == "nil"
+      let t := realIP (if nilT then none else some st.cfg.trusted) r
+      let v := match impl with
+        | [i] => match dec i with
+          | some s => st.judge.ip nilT r s
+          | none => "na"
+        | _ => "na"
+      (st, enc t.text, v)
+  | "get" :: srv :: route :: rest =>
+    match parseServer srv, dec route, parseReq rest with
+    | some s, some rt, some r =>
+      if !r.wf then (st, "bad-op", "na") else
+      let code := endpointStatus s rt st.cfg r
+      let m := if code = 0 then "open" else toString code
+      let v := match impl with
+        | [i] => match toNat? i with
+          | some n => st.judge.get (rt ∈ stmtGated s) r n
+          | none => "na"
+        | _ => "na"
+      (st, m, v)
+    | _, _, _ => (st, "bad-op", "na")
+  | "mem" :: rest =>
+    match takeCounted parseCidr rest with
+    | some (nets, [ip]) =>
+      match parseHex ip with
+      | some b =>
+        let m := if allowed nets b then "1" else "0"
+        -- the bit-level reading applies to addresses and networks of the two real families
+        let v := match impl with
+          | [i] =>
+            if (b.length = 4 ∨ b.length = 16) ∧ nets.all Cidr.wf then
+              (if (i == "1") == specAllowed nets b then "ok" else "violated:cidr-membership-differs-from-prefix-match")
+            else "na"
+          | _ => "na"
+        (st, m, v)
+      | none => (st, "bad-op", "na")
+    | _ => (st, "bad-op", "na")
+  | _ => (st, "bad-op", "na")
 
 end SigModel.Driver.C16
